@@ -572,6 +572,15 @@ def layout_tables(font):
     return {tag: font[tag].table for tag in ("GSUB", "GPOS", "GDEF") if tag in font and hasattr(font[tag], "table")}
 
 
+def has_class_pairs(gpos):
+    ll = getattr(gpos, "LookupList", None)
+    for lk in (ll.Lookup if ll is not None else []):
+        for st in _inner("GPOS", lk):
+            if type(st).__name__ == "PairPos" and st.Format == 2:
+                return True
+    return False
+
+
 def run_case(arg):
     """-> {"case":…, "e2e": trace for Trace_C06 (or None), "loops": [traces for Trace_C06_Loop], "skip": reason|None}"""
     case, seed = arg
@@ -601,10 +610,13 @@ def run_case(arg):
             result["skip"] = "no GSUB/GPOS"
             return result
         # ---- runs ---------------------------------------------------------------------
+        plan = [tuple(x) for x in case["runs"]]
+        if case.get("levels") and "GPOS" in tabs0 and has_class_pairs(tabs0["GPOS"]):
+            plan += [("N", l) for l in case["levels"]] + [("F", case["levels"][-1])]
         runs = []
         rec.install()
         try:
-            for mode, level in case["runs"]:
+            for mode, level in plan:
                 run = {"mode": mode, "lvl": level, "err": "", "bytes": None}
                 n0 = len(rec.traces)
                 signal.alarm(case.get("budget", 60))
